@@ -251,7 +251,7 @@ theorem Quiet.trans {a b c : St} (h1 : Quiet a b) (h2 : Quiet b c) : Quiet a c :
    h2.2.2.2.2.trans h1.2.2.2.2⟩
 
 theorem quiet_of_script {s : St} {it : Rd} {rest : List Rd} (h : s.script = it :: rest) :
-    Quiet s { s with script := rest } :=
+    Quiet s { s with script := rest, lin := [] } :=
   ⟨Same.of_eq rfl rfl rfl, by rw [h]; exact List.suffix_cons _ _, rfl, rfl, rfl⟩
 
 /-- why a call that was told not to terminate the program did so nevertheless -/
@@ -268,7 +268,8 @@ theorem netRead_spec (fatal : Bool) (s : St) :
   · split
     · rename_i h
       exact sat_mono (dieerror_spec _ (Or.inl rfl) s _) (fun _ _ h => h) (fun _ h' => ⟨h'.1, h⟩)
-    · simp only [sat_ret]; exact ⟨Quiet.refl s, by trv, by trv, by decide, fun h => absurd h (by decide)⟩
+    · simp only [sat_ret]
+      exact ⟨⟨Same.of_eq rfl rfl rfl, List.suffix_refl _, rfl, rfl, rfl⟩, by trv, by trv, by decide, fun h => absurd h (by decide)⟩
   · rename_i l rest h
     simp only [sat_ret]; exact ⟨l, rest, h, by trv⟩
   · rename_i e rest h
@@ -1142,14 +1143,18 @@ theorem connectMx_spec (helo : List Byte) : ∀ (fuel : Nat) (s : St), s.conns <
       · split
         · exact cont _ hq1.1 hq1.2.2.2.1 hq1.2.1
         · split
-          · apply sat_bind' (quitmsg_spec s1) (fun _ h => ab hq1.1 h.1)
-            intro _ s2 ⟨h1, _, _, h4, h5, h6, h7⟩
-            exact cont s2 (hq1.1.trans h1) (h6.trans hq1.2.2.2.1) (h4.trans hq1.2.1)
-          · unfold shutdownAbort
-            simp only [sat_exit]
-            have hne : ¬ (Gen.Qr.stGreetFail = []) := by decide
-            rw [if_neg hne]
-            exact ab hq1.1 (Aborted.same_right (aborted_writeStatus s1 _ cstr_stGreetFail) (Same.of_eq rfl rfl rfl))
+          · apply sat_bind' (quitmsgIfNet_spec sc s1) (fun _ h => ab hq1.1 h)
+            intro _ s2 ⟨hq2, _⟩
+            exact cont s2 (hq1.trans hq2).1 (hq1.trans hq2).2.2.2.1 (hq1.trans hq2).2.1
+          · split
+            · apply sat_bind' (quitmsg_spec s1) (fun _ h => ab hq1.1 h.1)
+              intro _ s2 ⟨h1, _, _, h4, h5, h6, h7⟩
+              exact cont s2 (hq1.1.trans h1) (h6.trans hq1.2.2.2.1) (h4.trans hq1.2.1)
+            · unfold shutdownAbort
+              simp only [sat_exit]
+              have hne : ¬ (Gen.Qr.stGreetFail = []) := by decide
+              rw [if_neg hne]
+              exact ab hq1.1 (Aborted.same_right (aborted_writeStatus s1 _ cstr_stGreetFail) (Same.of_eq rfl rfl rfl))
       · rename_i hnn
         obtain ⟨_, hsock1, _⟩ := hpos1 (by omega)
         apply sat_bind' (greetLoop_spec _ sc false s1 (Nat.lt_succ_self _)) (fun _ h => ab hq1.1 h)
